@@ -133,7 +133,7 @@ def run_case(case):
     rng = random.Random(case["seed"])
     counters = dict.fromkeys(["evaluations", "builds", "structure_checks", "transition_checks",
                               "commits_checked", "raw_requests", "raw_rejected", "raw_internal",
-                              "restarts_strict", "rollbacks"], 0)
+                              "restarts_strict", "rollbacks", "gremlin_hits"], 0)
     violations = []
     prints = set()
 
@@ -248,8 +248,15 @@ def run_case(case):
                         files = gen.render(cur, previous=files)
                     cfg = c10.hostile_cfg(rng)
                     mon = monitor(cfg, dropped)
-                    ctl = H.Controller(rng.choice(["free", "jitter", "serial"]), rng.randrange(1 << 30))
+                    if rng.random() < 0.3:
+                        # a gremlin rewrites an input of a running step: the build fails, the
+                        # stored workflow must stay consistent all the same
+                        from vmon.checks.c03 import Gremlin
+                        ctl = Gremlin(rng.choice(["free", "jitter", "serial"]), rng.randrange(1 << 30), 0.3)
+                    else:
+                        ctl = H.Controller(rng.choice(["free", "jitter", "serial"]), rng.randrange(1 << 30))
                     b = H.run_build(cfg, ctl=ctl, monitors=[mon], env=dict(cur.get("env", {})), timeout=90)
+                    counters["gremlin_hits"] += len(getattr(ctl, "hits", []))
                     collect(mon, b, f"{case['id']}/{sub} build {k}")
                     counters["evaluations"] += 1
                 strict_restart(f"{case['id']}/{sub}")
